@@ -20,7 +20,7 @@ RULE = ("schemas of depth <= 4 and width <= 6 with identifier keys whose option 
         "and mutated states: the state afterwards must equal 'supplied and not ignored options set to their normal "
         "form and marked user-defined, every other value and flag untouched'; non-trivial = >= 4 paths and >= 1 "
         "command line applied; distinct = distinct (schema, state, command line)")
-REQUIRED = ("parser_from_a_configuration_with_state", "parsed_arguments_applied_to_a_fresh_configuration", "instance_methods_looked_up_by_path", "number_fields_declared_with_the_base_class", "membership_negatives", "schema_iterations_compared", "parsed_arguments_reused_with_another_ignore_list", "parser_from_schema_method", "sections_nested_in_a_section_of_the_same_name", "mode_helper_replaces_an_earlier_field", "rejected_command_lines_applied_again", "schemas_with_names_of_schema_methods_or_odd_underscores", "schema_grown_after_enumeration", "paths_checked", "dotted_assignments_checked", "parsers_compared", "overrides_compared", "argv:empty",
+REQUIRED = ("fields_or_sections_built_with_a_key_of_their_own", "parser_from_a_configuration_with_state", "parsed_arguments_applied_to_a_fresh_configuration", "instance_methods_looked_up_by_path", "number_fields_declared_with_the_base_class", "membership_negatives", "schema_iterations_compared", "parsed_arguments_reused_with_another_ignore_list", "parser_from_schema_method", "sections_nested_in_a_section_of_the_same_name", "mode_helper_replaces_an_earlier_field", "rejected_command_lines_applied_again", "schemas_with_names_of_schema_methods_or_odd_underscores", "schema_grown_after_enumeration", "paths_checked", "dotted_assignments_checked", "parsers_compared", "overrides_compared", "argv:empty",
             "argv:bool-on", "argv:bool-off", "argv:bool-both-switches", "argv:value", "argv:repeated", "argv:invalid", "ignore:str", "ignore:list",
             "state:mutated", "depth>=3")
 ASSUMPTIONS = ["enumeration is judged on root schemas / configurations; membership is demanded of stored fields only",
@@ -96,6 +96,17 @@ def generate(rng, ctx):
         if nd["kind"] == "field" and nd["family"] in ("int", "float") and rng.random() < 0.2:
             nd["params"]["base_class"] = True  # declared as NumberField(int, ...) / NumberField(float, ...)
             schema["number_base_class"] = True
+    for _p, nd in spec.walk(schema):
+        # fields and sections built with a key of their own (as taken from another schema): the name they are registered
+        # under is the one that counts
+        if "[]" in _p or rng.random() >= 0.15:
+            continue
+        if nd["kind"] == "field" and nd["family"] in ("int", "float", "str", "bool"):
+            nd["params"]["key"] = "ctor_%d" % rng.randrange(5)
+            schema["constructor_keys"] = True
+        elif nd["kind"] == "schema" and nd.get("style") == "mounted":
+            nd["ctor_key"] = "ctor_%d" % rng.randrange(5)
+            schema["constructor_keys"] = True
     env = gen.GEN_ENV
     state_ops = [op for op in history.gen_ops(rng, schema, env, rng.choice([0, 0, 4, 8]), bad=0.0) if op["op"] == "set" and not op.get("dynamic")]
     leaves = [(p, nd) for p, nd in spec.walk(schema) if "[]" not in p and nd["kind"] == "field"]
@@ -238,6 +249,8 @@ def run(case, ctx, res):
         res.count("mode_helper_replaces_an_earlier_field")
     if case["schema"].get("number_base_class"):
         res.count("number_fields_declared_with_the_base_class")
+    if case["schema"].get("constructor_keys"):
+        res.count("fields_or_sections_built_with_a_key_of_their_own")
     if case["schema"].get("odd_names"):
         res.count("schemas_with_names_of_schema_methods_or_odd_underscores")
     def check_names(stage):
